@@ -52,6 +52,13 @@ pub struct RenderScenario {
 }
 
 pub fn comp_probe_ctx(c: &CompInfo, with_extra: bool) -> SCtx {
+    comp_probe_ctx_x(c, if with_extra { 1 } else { 0 })
+}
+
+/// `extra`: 0 none, 1 an integer, 2 an undefined value, 3 none (a declared parameter is
+/// undefined instead). Never more than ONE undeclared argument (two would make the error text
+/// order-dependent).
+pub fn comp_probe_ctx_x(c: &CompInfo, extra: u8) -> SCtx {
     let mut v = Vec::new();
     for p in &c.params {
         let val = match p.name.as_str() {
@@ -63,9 +70,15 @@ pub fn comp_probe_ctx(c: &CompInfo, with_extra: bool) -> SCtx {
         };
         v.push((p.name.clone(), val));
     }
-    if with_extra {
-        // exactly ONE undeclared argument (two would make the error text order-dependent)
-        v.push(("zz_extra".to_string(), SVal::I64(9)));
+    match extra {
+        1 => v.push(("zz_extra".to_string(), SVal::I64(9))),
+        2 => v.push(("zz_extra".to_string(), SVal::Undef)),
+        3 => {
+            if let Some(first) = v.first_mut() {
+                first.1 = SVal::Undef;
+            }
+        }
+        _ => {}
     }
     SCtx(v)
 }
@@ -106,9 +119,14 @@ pub fn generate(seed: u64, tier: &str, property: &str) -> RenderScenario {
         }
     }
     for c in &world.comps {
-        let with_extra = rng.chance(1, 6);
+        let extra = match rng.below(12) {
+            0 | 1 => 1,
+            2 => 2,
+            3 => 3,
+            _ => 0,
+        };
         let body = if rng.chance(1, 2) { Some("<em>body &amp; more</em>".to_string()) } else { None };
-        targets.push(Target::Component { name: c.name.clone(), ctx: comp_probe_ctx(c, with_extra), body, autoescape: rng.chance(1, 2) });
+        targets.push(Target::Component { name: c.name.clone(), ctx: comp_probe_ctx_x(c, extra), body, autoescape: rng.chance(1, 2) });
     }
     for s in oneoffs {
         targets.push(Target::Str { source: s, autoescape: rng.chance(1, 2) });
